@@ -338,6 +338,17 @@ struct Sweep
       if (only_strong && e.feat.copyable)
         for (int c = 0; c <= 4; ++c) { Op x = o; x.kind = OP_APPEND_ILIST; x.count = c; emit (prefix, x); }
     }
+    if (all || only_binary)
+    {
+      // self-referential calls: v = v, v.assign (v), v = std::move (v), v.swap (v), swap (v, v)
+      for (int flag = 0; flag < 2; ++flag)
+      {
+        Op x = o; x.s = t; x.flag = flag;
+        if (e.feat.copyable) { x.kind = OP_ASSIGN_COPY; emit (prefix, x); }
+        x.kind = OP_ASSIGN_MOVE; emit (prefix, x);
+        x.kind = OP_SWAP; emit (prefix, x);
+      }
+    }
     if (all || only_binary || only_strong)
       binary_ops (prefix, t, next_val + 200);
   }
